@@ -1,5 +1,7 @@
 import BdModel.Sched.Defs
-/- helper lemmas + main proofs for C04 and C05 -/
+import BdModel.Proofs.Sched.OutcomeInv
+/- helper lemmas + main proofs for C04 and C05
+   (frame lemmas: OutcomeBase.lean, inductive invariants: OutcomeInv.lean) -/
 namespace BdModel.Sched
 
 /-- the handler log is always a prefix of the plan computed after `wg.Wait()`; at return it is the plan -/
@@ -8,19 +10,28 @@ theorem hlog_plan (c : Cfg) (s : State) (hr : Reach c s) :
     (∀ p, s.hplan = some p →
         (∃ o, s.atWait = some o ∧ p = handlerPlan c o) ∧
         ((∃ rest, s.loop = .handlers rest ∧ s.hlog ++ rest = p) ∨ (s.loop = .returned ∧ s.hlog = p))) := by
-  sorry
+  induction hr with
+  | init => simp [init]
+  | @step s s' a hr hs ih =>
+    step_cases a hs <;> cases hp : s.hplan <;> grind
 
+-- `hn` is not needed by the proof (the statement is kept as given)
+set_option linter.unusedVariables false in
 /-- no step command starts once the handlers have begun -/
 theorem no_exec_after_wait (c : Cfg) (hn : NoRep c) (s : State) (hr : Reach c s)
     (hl : (∃ l, s.loop = .handlers l) ∨ s.loop = .returned) :
     totalExecs c s = s.execsAtWait ∧ ∀ i, i < c.n → (s.nd i).pc.active = false := by
-  sorry
+  have hH := (inH_iff s).1 hl
+  refine ⟨invX hr hH, fun i hi => ?_⟩
+  rcases (invQ hr hH i hi).1 with h | h <;> simp [h, PC.active]
 
 /-- a recorded error is never lost -/
 theorem error_implies_lastErr (c : Cfg) (s : State) (hr : Reach c s) (i : Nat)
-    (h : (s.nd i).status = .error) : s.lastErr = true := by
-  sorry
+    (h : (s.nd i).status = .error) : s.lastErr = true :=
+  invE1 hr i h
 
+-- `hdc` is not needed by the proof (the statement is kept as given)
+set_option linter.unusedVariables false in
 /-- outcome read after `wg.Wait()` for a run that was not stopped and did not time out -/
 theorem outcome_unstopped (c : Cfg) (hw : WF c) (hn : NoRep c) (hrk : Ranked c) (hdc : c.doneChan = true)
     (s : State) (hr : Reach c s) (hc : s.canceled = false) (ht : s.timedOut = false) (o : SStatus)
@@ -28,13 +39,76 @@ theorem outcome_unstopped (c : Cfg) (hw : WF c) (hn : NoRep c) (hrk : Ranked c) 
     (o = .success ∨ o = .error) ∧
     (o = .success ↔ ∀ i, i < c.n → (s.nd i).status = .success ∨ (s.nd i).status = .skipped) ∧
     (o = .error ↔ ∃ i, i < c.n ∧ (s.nd i).status = .error) := by
-  sorry
+  have hO := invO hn hr o ho hc ht
+  have hH : s.loop.inH = true := invA hr (by simp [ho])
+  have hD : s.loop.doneO = true := by
+    revert hH; cases s.loop <;> simp [LoopPC.inH, LoopPC.doneO]
+  have hW := invW hn hr hc hD
+  have hC := invC hn hr hc ht
+  -- a `cancel` label goes back to a node in status `error` (induction on the rank)
+  obtain ⟨rank, hrank⟩ := hrk
+  have hcan : ∀ k j, rank j < k → j < c.n → (s.nd j).status = .cancel →
+      ∃ e, e < c.n ∧ (s.nd e).status = .error := by
+    intro k
+    induction k with
+    | zero => intro j h; omega
+    | succ k ih =>
+      intro j hjk hj hjc
+      obtain ⟨d, hd, hb⟩ := hC j hjc
+      have hdn := hw j hj d hd
+      have hlt := hrank j hj d hd
+      rcases hb with ⟨he, _⟩ | hdc
+      · exact ⟨d, hdn, he⟩
+      · exact ih d (by omega) hdn hdc
+  have hLE : s.lastErr = true ↔ ∃ i, i < c.n ∧ (s.nd i).status = .error :=
+    ⟨fun h => invE2 hn hr h hc ht, fun ⟨i, _, h⟩ => invE1 hr i h⟩
+  have hAll : (¬ ∃ i, i < c.n ∧ (s.nd i).status = .error) ↔
+      ∀ i, i < c.n → (s.nd i).status = .success ∨ (s.nd i).status = .skipped := by
+    constructor
+    · intro hne i hi
+      have h1 := hW i hi
+      have h2 : (s.nd i).status ≠ .error := fun h => hne ⟨i, hi, h⟩
+      have h3 : (s.nd i).status ≠ .cancel := fun h => hne (hcan _ i (Nat.lt_succ_self _) hi h)
+      revert h1 h2 h3
+      cases (s.nd i).status <;> simp
+    · rintro hall ⟨i, hi, he⟩
+      rcases hall i hi with h | h <;> simp [he] at h
+  by_cases hl : s.lastErr = true
+  · have hex := hLE.1 hl
+    have hoe : o = .error := by simpa [hl] using hO
+    subst hoe
+    refine ⟨Or.inr rfl, ⟨fun h => (by cases h), fun h => absurd hex (hAll.2 h)⟩, ⟨fun _ => hex, fun _ => rfl⟩⟩
+  · have hnex : ¬ ∃ i, i < c.n ∧ (s.nd i).status = .error := fun h => hl (hLE.2 h)
+    have hos : o = .success := by simpa [hl] using hO
+    subst hos
+    refine ⟨Or.inl rfl, ⟨fun _ => hAll.1 hnex, fun _ => rfl⟩, ⟨fun h => (by cases h), fun h => absurd h hnex⟩⟩
+
+/-- one transition of a stopped run, for `no_new_start_after_cancel` -/
+theorem cancel_step {c : Cfg} {s s' : State} {a : Act} (hs : step c s a = some s') (i e0 : Nat) (b : Prop)
+    [Decidable b]
+    (ih : s.canceled = true ∧ (s.nd i).execs ≤ e0 + (if b then 1 else 0) ∧
+      ((s.nd i).pc = .starting → b ∧ (s.nd i).execs = e0)) :
+    s'.canceled = true ∧ (s'.nd i).execs ≤ e0 + (if b then 1 else 0) ∧
+      ((s'.nd i).pc = .starting → b ∧ (s'.nd i).execs = e0) := by
+  step_cases a hs <;> (try simp only [afterPC] at *) <;> step_close
 
 /-- after a stop has been accepted, a command can start only in a worker that had already
     passed its cancel test (`starting`), and at most once -/
 theorem no_new_start_after_cancel (c : Cfg) (s s' : State) (hc : s.canceled = true)
     (h : ReachFrom c s s') (i : Nat) :
     (s'.nd i).execs ≤ (s.nd i).execs + (if (s.nd i).pc = .starting then 1 else 0) := by
-  sorry
+  have key : s'.canceled = true ∧
+      (s'.nd i).execs ≤ (s.nd i).execs + (if (s.nd i).pc = .starting then 1 else 0) ∧
+      ((s'.nd i).pc = .starting → (s.nd i).pc = .starting ∧ (s'.nd i).execs = (s.nd i).execs) := by
+    induction h with
+    | init => refine ⟨hc, ?_, fun h => ⟨h, rfl⟩⟩; split <;> omega
+    | step a _ hs ih => exact cancel_step hs i _ _ ih
+  exact key.2.1
 
 end BdModel.Sched
+
+#print axioms BdModel.Sched.hlog_plan
+#print axioms BdModel.Sched.no_exec_after_wait
+#print axioms BdModel.Sched.error_implies_lastErr
+#print axioms BdModel.Sched.outcome_unstopped
+#print axioms BdModel.Sched.no_new_start_after_cancel
